@@ -303,3 +303,17 @@ where
         RequestBuilder::new(method, url, self.clone())
     }
 }
+
+#[cfg(crux_verif)]
+impl<Ev> Http<Ev>
+where
+    Ev: 'static,
+{
+    /// Verification hook: the same capability with `middleware` pushed onto its client's stack
+    /// (`Client::with` is not reachable through the public API).
+    #[must_use]
+    pub fn verif_with_middleware(mut self, middleware: impl middleware::Middleware) -> Self {
+        self.client = self.client.with(middleware);
+        self
+    }
+}
